@@ -88,14 +88,15 @@ type nrRec struct {
 }
 
 type nrWorld struct {
-	c        *engine.Ctx
-	nc       nrCase
-	s        *world.Server
-	recs     []*nrRec
-	other    *nrRec
-	tokenIDs []string
-	chainReq []*types.RotateNodeCredentialsRequest
-	seq      int
+	honestSeq int
+	c         *engine.Ctx
+	nc        nrCase
+	s         *world.Server
+	recs      []*nrRec
+	other     *nrRec
+	tokenIDs  []string
+	chainReq  []*types.RotateNodeCredentialsRequest
+	seq       int
 	// the request being submitted (the witness stays the case descriptor)
 	curPath   string
 	curEncBy  int
@@ -570,6 +571,12 @@ func (w *nrWorld) honestRequest(oldCreds *types.NodeCredentials, namedPkix []byt
 	if err != nil {
 		return nil, nil, err
 	}
+	// what real nodes do on two of three rotations: the new credentials name the key they replace
+	// (the field travels in the signed bundle and is copied onto the new record)
+	if w.honestSeq++; w.honestSeq%3 != 0 && oldCreds != nil {
+		newNode.Creds.PreviousCertificatePublicKeyPkix = append([]byte{}, oldCreds.CertificatePublicKeyPkix...)
+		w.c.R.Count("honest_requests_naming_the_replaced_key", 1)
+	}
 	fetchReq, err := newNode.FetchRequest()
 	if err != nil {
 		return nil, nil, err
@@ -593,7 +600,9 @@ func runNRCase(c *engine.Ctx, nc nrCase) {
 		nc.Indep = 1
 	}
 	w := &nrWorld{c: c, nc: nc}
-	w.s = world.MustServer(world.ServerCfg{Backend: nc.Backend, StorageWrap: nc.Wrap, RegWrap: nc.RegWrap})
+	// the storage wrapper sits behind a key service that can be made to fail single calls (unarmed it is a
+	// plain aead key)
+	w.s = world.MustServer(world.ServerCfg{Backend: nc.Backend, StorageWrap: nc.Wrap, StorageWrapKind: world.WrapFlaky, RegWrap: nc.RegWrap})
 	defer w.s.Close()
 	s := w.s
 	enroll := func(tag string) *nrRec {
@@ -973,6 +982,18 @@ func runNRCase(c *engine.Ctx, nc nrCase) {
 		// same bytes again: the new key now has a record
 		again := proto.Clone(req).(*types.RotateNodeCredentialsRequest)
 		w.submit("replay", again, nil, nil, "refuse", "replay-after-success")
+		// and again while the storage wrapper's key service fails for one call: whichever stored record cannot
+		// be opened at that moment, the replay is a replay (a record that cannot be read is not an absent one)
+		if fw, ok := w.s.SW.(*world.FlakyWrapper); ok && !w.dirty {
+			for k := 1; k <= 4 && !w.dirty; k++ {
+				fw.Arm(k, 0)
+				w.submit("replay-under-wrapper-failure", proto.Clone(req).(*types.RotateNodeCredentialsRequest), nil, nil, "refuse", "replay-while-a-stored-record-cannot-be-opened")
+				if n, _, _ := fw.Delivered(); n > 0 {
+					r.Count("replays_with_a_failing_unwrap_delivered", 1)
+				}
+				fw.Arm(0, 0)
+			}
+		}
 	}
 }
 
